@@ -1841,7 +1841,7 @@ func rulesNewickParser(c *Ctx, r *Report) {
 			return "push->" + st
 		case len(evs) == 2 && strings.HasPrefix(evs[0], "append(load(load(LOOP0") && strings.Contains(evs[0], par) && strings.HasPrefix(evs[1], "store LOOP0[(builtin:len(LOOP0) - 1)] = alloc:") && stackNext == "":
 			return "sibling->" + st
-		case len(evs) == 1 && strings.HasPrefix(evs[0], fmt.Sprintf("store load(LOOP0[(builtin:len(LOOP0) - 1)]).f%d = call:", nameF)) && strings.Contains(evs[0], "nameFromText(extract:0(") && stackNext == "":
+		case len(evs) == 1 && strings.HasPrefix(evs[0], fmt.Sprintf("store load(LOOP0[(builtin:len(LOOP0) - 1)]).f%d = call:", nameF)) && strings.Contains(evs[0], "nameFromText(extract:0(") && strings.Count(evs[0], "call:") == 2 && stackNext == "":
 			return "name->" + st
 		case len(evs) == 1 && strings.HasPrefix(evs[0], fmt.Sprintf("store load(LOOP0[(builtin:len(LOOP0) - 1)]).f%d = extract:0(call:strconv.ParseFloat(extract:0(", distF)) && stackNext == "":
 			return "dist->" + st
